@@ -551,6 +551,16 @@ class Frame:
                 if self.run_if(s, rest, blk):
                     return True
                 continue
+            if isinstance(s, ast.Try):
+                ok = not s.orelse and not s.finalbody and all(
+                    h.name and len(h.body) == 1 and isinstance(h.body[0], ast.Raise) and isinstance(h.body[0].exc, ast.Name) and h.body[0].exc.id == h.name
+                    for h in s.handlers)
+                if not ok:
+                    raise Unsupported("try statement other than `except E as e: raise e`")
+                if self.run(s.body, blk):
+                    return True
+                self.cur = blk
+                continue
             raise Unsupported(f"statement {type(s).__name__}: {ast.unparse(s)[:80]}")
         return False
 
@@ -875,6 +885,12 @@ class Frame:
             return v
         if allow_dict and attr == "_additional_vars":
             return ("dict", o, attr)
+        for c in self.tr.mro(o.cls):
+            for node in self.tr.cls(c).body:
+                if isinstance(node, ast.Assign) and len(node.targets) == 1 and isinstance(node.targets[0], ast.Name) and node.targets[0].id == attr:
+                    if isinstance(node.value, ast.Dict) and all(isinstance(k, ast.Constant) and isinstance(k.value, int) for k in node.value.keys):
+                        return ("classdict", [k.value for k in node.value.keys], node.value.values)
+                    raise Unsupported(f"class attribute {c}.{attr}")
         if self.tr.find(o.cls, attr, kind="method"):
             raise Unsupported(f"method {attr} used as a value")
         raise Unsupported(f"unknown attribute {o.cls}.{attr}")
@@ -1016,6 +1032,13 @@ class Frame:
         raise Unsupported(f"operands of {ast.unparse(n)}: {a.ty}, {b.ty}")
 
     def compare(self, op, a, b):
+        if isinstance(op, (ast.In, ast.NotIn)):
+            if isinstance(b, tuple) and b[0] == "classdict" and isinstance(a, V) and a.ty == INT:
+                e = "false"
+                for k in b[1]:
+                    e = f"(orb {e} (Z.eqb {a.e} {zlit(k)}))"
+                return V(e if isinstance(op, ast.In) else f"(negb {e})", BOOL)
+            raise Unsupported("`in` other than membership of an int in a class-level dict")
         if isinstance(op, (ast.Is, ast.IsNot)):
             if isinstance(b, V) and b.ty == NONE and isinstance(a, V):
                 if isinstance(a.ty, tuple) and a.ty[0] == "opt":
@@ -1084,8 +1107,9 @@ class Frame:
                 return ("ctor", f.id)
             return ("builtin", f.id)
         if isinstance(f, ast.Attribute):
-            if isinstance(f.value, ast.Name) and f.value.id in ("np", "math"):
-                return ("builtin", f"{f.value.id}.{f.attr}")
+            full = ast.unparse(f)
+            if full.split(".")[0] in ("np", "math") and full.split(".")[0] not in self.env:
+                return ("builtin", full)
             if isinstance(f.value, ast.Call) and isinstance(f.value.func, ast.Name) and f.value.func.id == "super" and not f.value.args:
                 m = self.tr.mro(self.self.cls)
                 nxt = m[m.index(self.dcls) + 1:]
@@ -1222,6 +1246,15 @@ class Frame:
             return V(f"(absA {coerce(args[0], NUM).e})", NUM)
         if name == "float" and len(args) == 1 and args[0].ty in (INT, NUM):
             return coerce(args[0], NUM)
+        if name == "np.random.seed":
+            a = args[0] if args else self.ev(n.keywords[0].value)
+            if a.ty == opt(INT):
+                self.guard(f"(match {a.e} with None => false | Some z_ => orb (Z.ltb z_ 0%Z) (Z.leb 4294967296%Z z_) end)", "ValueError")
+            elif a.ty == INT:
+                self.guard(f"(orb (Z.ltb {a.e} 0%Z) (Z.leb 4294967296%Z {a.e}))", "ValueError")
+            elif a.ty != NONE:
+                raise Unsupported("np.random.seed argument")
+            return V("tt", UNIT)
         if name == "np.count_nonzero" and len(args) == 1 and args[0].ty == BOOL:
             return V(f"(b2z {args[0].e})", INT)
         raise Unsupported(f"builtin {name}")
@@ -1351,10 +1384,10 @@ def zlit(v):
 def flit(x):
     fr = Fraction(str(x))
     if fr.denominator == 1:
-        return f"(ofZ {zlit(fr.numerator)})"
+        return f"(@ofZ A {zlit(fr.numerator)})"
     if abs(fr.numerator) >= 2**53 or fr.denominator >= 2**53 or float(fr.numerator) / float(fr.denominator) != x:
         raise Unsupported(f"float literal {x!r} is not an exact quotient of small integers")
-    return f"(div (ofZ {zlit(fr.numerator)}) (ofZ {zlit(fr.denominator)}))"
+    return f"(div (@ofZ A {zlit(fr.numerator)}) (@ofZ A {zlit(fr.denominator)}))"
 
 
 def join(a, b):
@@ -1379,7 +1412,7 @@ def coerce(v: V, ty):
     if v.ty == ty:
         return v
     if v.ty == INT and ty == NUM:
-        return V(f"(ofZ {v.e})", NUM)
+        return V(f"(@ofZ A {v.e})", NUM)
     if v.ty == BOOL and ty == INT:
         return V(f"(b2z {v.e})", INT)
     if v.ty == NONE and isinstance(ty, tuple) and ty[0] == "opt":
